@@ -17,8 +17,8 @@ leaf holds zero; both hold for the trie of any key/value set with non-zero value
 `Tree.proveNodes` = the two provers, `verifyL` = `trie.VerifyProof`, `verify2` = `trie2.VerifyProof`.
 A proof node's child has one of FIVE shapes (`Shape`): hash node, value node, nil, embedded node with /
 without cached hash — all five arms of the Go switch.  `cfg : Cfg` is the variant of the verifiers the
-harness finds in the tree under test: `Cfg.at997852f` = /repo today, `Cfg.strict` = with
-proposed-fixes/C10-verifyproof-walk-collapsed-node-and-guards.diff.  Range proofs (trie2):
+harness finds in the tree under test: `Cfg.strict` = /repo today (since 616d4a4: walk on the collapsed
+copy, key range check); the statements about `verify2` here are about that variant.  Range proofs (trie2):
 `verifySingle`, `verifyEmpty`, `verifyAll`, `verifyMulti` with variant `RCfg` (`RCfg.strict` = /repo
 today).  Heights `0 < n < 256` (path positions are `uint8`; juno uses 251).  Keys are bit paths; the
 conversion felt ↦ path (`SetFelt(251, ·)`, drops bit 251) is `pathOfNat` in `verifyLFelt` /
@@ -102,7 +102,7 @@ theorem proof_sound_legacy (A : HashAlg H) (hI : Ideal A) (cfg : Cfg) (n : Nat) 
   subst hr
   exact (legacy_sound hI cfg t n hwf hnz hn h256 k hk P v h).symm
 
-/-- `trie2.VerifyProof` with the walk on the collapsed copy (`Cfg.strict`, the pending diff): sound
+/-- `trie2.VerifyProof` (`Cfg.strict` = /repo since 616d4a4: hash and walk on the collapsed copy): sound
 against EVERY node set — any of the five child shapes, any cached flags. -/
 theorem proof_sound_trie2 (A : HashAlg H) (hI : Ideal A) (n : Nat) (hn : 0 < n) (r : H) (k : Path)
     (hk : k.length = n) (P : PSet H) (v : H) (h : verify2 A Cfg.strict r k P = Res.ok v) :
@@ -111,21 +111,6 @@ theorem proof_sound_trie2 (A : HashAlg H) (hI : Ideal A) (n : Nat) (hn : 0 < n) 
   subst hr
   exact (trie2_sound hI Cfg.strict t n hwf hnz hn k hk P (by simp [Cfg.strict]) (by simp [Cfg.strict])
     (Or.inl rfl) v h).symm
-
-/-- PARTIAL — `trie2.VerifyProof` of /repo today (`Cfg.at997852f`) and every other variant: sound on
-node sets that meet the side conditions of the variant; today that is: NO EMBEDDED child node (what
-`Prove` returns and what a wire decoder builds).  Missing: sets with embedded children — see
-`embedded_child_forgery` below. -/
-theorem proof_sound_trie2_partial (A : HashAlg H) (hI : Ideal A) (cfg : Cfg) (n : Nat) (hn : 0 < n)
-    (r : H) (k : Path) (hk : k.length = n) (P : PSet H)
-    (hcache : cfg.trustCache = true → ∀ e ∈ P, e.2.cache = none)
-    (hval : cfg.earlyValue = true → ∀ e ∈ P, e.2.noValue)
-    (hemb : cfg.walkCollapsed = true ∨ ∀ e ∈ P, e.2.noEmb) (v : H)
-    (h : verify2 A cfg r k P = Res.ok v) :
-    ∀ t : Trie H, Trie.WF t n → Trie.NZ A t → t.hash A = r → t.get A k = v := by
-  intro t hwf hnz hr
-  subst hr
-  exact (trie2_sound hI cfg t n hwf hnz hn k hk P hcache hval hemb v h).symm
 
 /-- height 3: 001 ↦ 7 (edge of length 2 under the root), 101 ↦ 5, 110 ↦ 8, 111 ↦ 9 -/
 def exTree : Tree HTerm :=
@@ -136,31 +121,10 @@ example : WF exTree 3 :=
   .bin (.edge (p := [false, true]) (by simp) (.leaf _))
     (.bin (.edge (p := [true]) (by simp) (.leaf _)) (.bin (.leaf _) (.leaf _)))
 
-/-- the honest proof of 110 (no cached flags) in which the root's right child — a hash node — is given
-as the EMBEDDED node it stands for, without cached hash; every node still hashes to its set key -/
-def forgedEmbedded : PSet HTerm :=
-  match Trie.prove freeAlg false false (some exTree) [true, true, false] with
-  | (h, .bin l r c) :: rest => (h, .bin l ⟨.embPlain, r.h⟩ c) :: rest
-  | p => p
-
-/-- DEFECT of /repo today (known finding `trie2:embedded-child-without-cached-hash:accepted`): the hash
-check runs on the collapsed copy, the walk on the node as given; the embedded child is stepped over and
-the root node is entered again one level too deep, and again, until the shortened key leads to a hash
-child: key 110 holds 8; the verifier of today returns, without error, the hash of the edge node above
-key 001.  (On the 251-bit tries of the harness the same construction makes a key holding 3 verify to
-5 and an absent key verify to 5: known finding replays.)  With the walk on the collapsed copy the true
-value is returned. -/
-theorem embedded_child_forgery :
-    (∀ e ∈ forgedEmbedded, e.1 = e.2.hash freeAlg) ∧
-    verify2 freeAlg Cfg.at997852f (exTree.hash freeAlg) [true, true, false] forgedEmbedded =
-      .ok ((Tree.edge [false, true] (.leaf (.felt 7))).hash freeAlg) ∧
-    exTree.get freeAlg [true, true, false] = .felt 8 ∧
-    verify2 freeAlg Cfg.strict (exTree.hash freeAlg) [true, true, false] forgedEmbedded = .ok (.felt 8) := by
-  decide
-
 /-- Altering a node, the claimed value or the key (as a bit path): whatever is done to the node set and
-whichever key it is offered for, no verifier (legacy: every variant; trie2: collapsed walk) confirms a
-value `v` the trie does not hold at that key. -/
+whichever key it is offered for, no verifier (legacy: every variant; trie2: /repo today) confirms a
+value `v` the trie does not hold at that key.  (An altered proof may still verify — to the TRUE value;
+what is excluded is establishing anything else.) -/
 theorem tamper_rejected (A : HashAlg H) (hI : Ideal A) (cfg : Cfg) (t : Trie H) (n : Nat)
     (hwf : Trie.WF t n) (hnz : Trie.NZ A t) (hn : 0 < n) (h256 : n < 256) (k' : Path)
     (hk : k'.length = n) (P' : PSet H) (v : H) (hv : v ≠ t.get A k') :
@@ -170,9 +134,9 @@ theorem tamper_rejected (A : HashAlg H) (hI : Ideal A) (cfg : Cfg) (t : Trie H) 
      (by simp [Cfg.strict]) (Or.inl rfl) v h)⟩
 
 -- honest proofs of present keys and of absent keys (divergence inside the edge, at the last bit)
-example : verifyL freeAlg Cfg.at997852f (exTree.hash freeAlg) [true, true, false]
+example : verifyL freeAlg Cfg.strict (exTree.hash freeAlg) [true, true, false]
     (Trie.prove freeAlg true false (some exTree) [true, true, false]) = .ok (.felt 8) := by decide
-example : verify2 freeAlg Cfg.at997852f (exTree.hash freeAlg) [false, false, true]
+example : verify2 freeAlg Cfg.strict (exTree.hash freeAlg) [false, false, true]
     (Trie.prove freeAlg false true (some exTree) [false, false, true]) = .ok (.felt 7) := by decide
 example : verify2 freeAlg Cfg.strict (exTree.hash freeAlg) [false, true, true]
     (Trie.prove freeAlg false true (some exTree) [false, true, true]) = .ok (.felt 0) := by decide
@@ -182,18 +146,10 @@ example : verifyL freeAlg Cfg.strict (exTree.hash freeAlg) [true, false, false]
 /-! ## Keys as felts
 
 Both `VerifyProof` take the key as a felt and convert it with `SetFelt(251, key)`, which keeps the low
-251 bits; the field has felts ≥ 2^251 (up to 2^251 + 17·2^192). -/
+251 bits; the field has felts ≥ 2^251 (up to 2^251 + 17·2^192).  Since 616d4a4 both refuse such keys
+(before: `Regress.felt_key_alias_before_616d4a4`). -/
 
-/-- DEFECT of /repo today (known finding `*:key-plus-2^251:accepted`): without the range check the felt
-`k + 2^n` is verified exactly like the key `k` — "the key is altered" is not noticed: a proof of `k ↦ v`
-is also accepted as a proof of `(k + 2^n) ↦ v`, a key no trie of height n holds. -/
-theorem felt_key_alias (A : HashAlg H) (cfg : Cfg) (hck : cfg.checkKey = false) (n : Nat) (r : H)
-    (k : Nat) (P : PSet H) :
-    verifyLFelt A cfg n r (2 ^ n + k) P = verifyLFelt A cfg n r k P ∧
-    verify2Felt A cfg n r (2 ^ n + k) P = verify2Felt A cfg n r k P := by
-  simp [verifyLFelt, verify2Felt, hck, pathOfNat_add_pow n n (Nat.le_refl n) k]
-
-/-- With the range check (`Cfg.strict`): an accepted felt key is below 2^n and the answer is the answer
+/-- With the range check (/repo today, `Cfg.strict`): an accepted felt key is below 2^n and the answer is the answer
 for its bit path — so `proof_sound_legacy` / `proof_sound_trie2` apply to felt keys as they stand. -/
 theorem felt_key_checked (A : HashAlg H) (cfg : Cfg) (hck : cfg.checkKey = true) (n : Nat) (r : H)
     (k : Nat) (P : PSet H) (v : H) :
